@@ -241,8 +241,12 @@ def _gen_case(rng, kind):
         vals = list(range(1, n + 1))
         rng.shuffle(vals)
         field = {"type": "distinct", "vals": vals} if rng.random() < 0.75 else gen_affine(rng, d)
-        return {"kind": "nearest", "src": src, "dst": dst, "smask": smask, "dreq": dreq, "dmask": dmask,
+        case = {"kind": "nearest", "src": src, "dst": dst, "smask": smask, "dreq": dreq, "dmask": dmask,
                 "field": field, "same_geometry": same}
+        if src["kind"] in ("uniform", "rect") and rng.random() < 0.15:
+            # the adapter is told its input grid explicitly: the producer's geometry, in another layout
+            case["in_grid"] = relayout(rng, src)
+        return case
     d = rng.choice([2, 2, 3])
     mode = rng.choice(["ucells", "upoints", "masked_structured"])
     if mode == "masked_structured":
@@ -320,7 +324,8 @@ def run_impl(case, gs, gd, vals, perturb=False):
                                                   mask=(smask if smask is not None else fm.Mask.NONE)))
         inp = fm.Input(name="in", info=fm.Info(time=None, grid=gd, units=None, mask=in_mask))
         if case["kind"] == "nearest":
-            adapter = fm.adapters.RegridNearest(out_mask=out_mask)
+            kw = {"in_grid": build_grid(case["in_grid"])} if case.get("in_grid") else {}
+            adapter = fm.adapters.RegridNearest(out_mask=out_mask, **kw)
         else:
             adapter = fm.adapters.RegridLinear(out_mask=out_mask, fill_with_nearest=case["fill"])
         out >> adapter >> inp
